@@ -19,6 +19,7 @@ type Exec struct {
 	Diverged   string
 	Panics     []string
 	Leaked     string // synctest complaint about goroutines left behind
+	Pruned     bool   // stopped at a state already explored with at least this preemption budget
 	Steps      int
 	Preempt    int
 	sigs       map[uint64]struct{}
@@ -52,6 +53,9 @@ type Config struct {
 	Check func(x *Exec) string
 	// StopAtFirst stops at the first violation.
 	StopAtFirst bool
+	// NoCache disables happens-before state caching (every schedule within
+	// the bound is then executed to the end).
+	NoCache bool
 }
 
 // Violation is a failing execution.
@@ -78,6 +82,8 @@ type Result struct {
 	HorizonHits      int
 	EnvChoices       int
 	Violations       []Violation
+	NViolations      int // violating executions (Violations keeps the first 20)
+	Pruned           int // executions cut at an already-explored state
 	Samples          [][]string
 	NondetErrors     []string
 	Cap              string
@@ -85,6 +91,10 @@ type Result struct {
 
 // RunOnce executes body under a scheduler replaying prefix.
 func RunOnce(t *testing.T, cfg *Config, prefix []Point) *Exec {
+	return runOnce(t, cfg, prefix, nil, false)
+}
+
+func runOnce(t *testing.T, cfg *Config, prefix []Point, visited map[uint64]int8, noTrace bool) *Exec {
 	x := &Exec{}
 	func() {
 		defer func() {
@@ -98,7 +108,9 @@ func RunOnce(t *testing.T, cfg *Config, prefix []Point) *Exec {
 				s.MaxStep = cfg.MaxStep
 			}
 			s.Horizon = cfg.Horizon
+			s.Visited, s.Bound, s.NoTrace = visited, cfg.Bound, noTrace
 			s.Run(cfg.Body)
+			x.Pruned = s.Pruned
 			x.Points, x.Trace, x.Log = s.Points, s.Trace, s.Log
 			x.Deadlock, x.HorizonHit, x.Diverged, x.Panics = s.Deadlock, s.HorizonHit, s.Diverged, s.Panics
 			x.Steps, x.sigs, x.MaxEnabled = s.Steps, s.StateSigs, s.MaxEnabled
@@ -124,6 +136,11 @@ func Explore(t *testing.T, cfg *Config) *Result {
 	stacks[0] = []item{{}}
 	outcomes := map[uint64]struct{}{}
 	states := map[uint64]struct{}{}
+	var visited map[uint64]int8
+	if !cfg.NoCache {
+		visited = map[uint64]int8{}
+	}
+	verified := 0
 	capped := false
 	var first, last *Exec
 	for level := 0; level <= cfg.Bound && !capped; level++ {
@@ -139,16 +156,21 @@ func Explore(t *testing.T, cfg *Config) *Result {
 			n := len(stacks[level])
 			it := stacks[level][n-1]
 			stacks[level] = stacks[level][:n-1]
-			x := RunOnce(t, cfg, it.prefix)
+			x := runOnce(t, cfg, it.prefix, visited, res.Executions >= 3)
 			res.Executions++
+			if x.Pruned {
+				res.Pruned++
+			}
 			res.Transitions += x.Steps
 			for k := range x.sigs {
 				states[k] = struct{}{}
 			}
-			if first == nil {
-				first = x
+			if !x.Pruned {
+				if first == nil {
+					first = x
+				}
+				last = x
 			}
-			last = x
 			if x.Diverged != "" {
 				res.NondetErrors = append(res.NondetErrors, x.Diverged)
 				continue
@@ -165,24 +187,36 @@ func Explore(t *testing.T, cfg *Config) *Result {
 			if x.HorizonHit {
 				res.HorizonHits++
 			}
-			h := fnv.New64a()
-			h.Write([]byte(x.Outcome()))
-			outcomes[h.Sum64()] = struct{}{}
-			if len(res.Samples) < 3 {
-				res.Samples = append(res.Samples, append([]string{}, x.Trace...))
-			}
 			what := ""
+			if !x.Pruned {
+				h := fnv.New64a()
+				h.Write([]byte(x.Outcome()))
+				outcomes[h.Sum64()] = struct{}{}
+				if len(res.Samples) < 3 && len(x.Trace) > 0 {
+					res.Samples = append(res.Samples, append([]string{}, x.Trace...))
+				}
+			}
 			if len(x.Panics) > 0 {
 				what = "panic: " + x.Panics[0]
-			} else if cfg.Check != nil {
+			} else if cfg.Check != nil && !x.Pruned {
 				what = cfg.Check(x)
 			}
 			if what != "" {
+				res.NViolations++
+			}
+			if what != "" && (verified < 5 || len(res.Violations) < 20) {
 				v := Violation{What: what, Choices: x.Points, Trace: x.Trace, Log: x.Log, Preempt: x.Preempt}
 				// determinism: the same schedule must fail identically 5 times
+				// (checked for the first violations; later ones are replayed once for their trace)
 				ok := true
-				for i := 0; i < 5 && ok; i++ {
+				nrep := 5
+				if verified >= 5 {
+					nrep = 1
+				}
+				verified++
+				for i := 0; i < nrep && ok; i++ {
 					y := RunOnce(t, cfg, x.Points)
+					v.Trace = y.Trace
 					w2 := ""
 					if len(y.Panics) > 0 {
 						w2 = "panic: " + y.Panics[0]
@@ -239,7 +273,7 @@ func Explore(t *testing.T, cfg *Config) *Result {
 			continue
 		}
 		y := RunOnce(t, cfg, x.Points)
-		if y.Diverged != "" || y.Outcome() != x.Outcome() || strings.Join(y.Trace, ",") != strings.Join(x.Trace, ",") {
+		if y.Diverged != "" || y.Outcome() != x.Outcome() || len(y.Points) != len(x.Points) || y.Steps != x.Steps {
 			res.NondetErrors = append(res.NondetErrors, "canary replay differs: "+y.Diverged)
 		}
 	}
